@@ -37,7 +37,7 @@ IDENT = re.compile(r"^[A-Za-z_][A-Za-z0-9_]*(\.[A-Za-z_][A-Za-z0-9_]*)*$")
 # (bare, or nested in a list / dictionary argument); through a partial application; through a batch
 SHAPES = ["direct", "fnarg", "fnarg_nested", "partial", "batch"]
 EVOLUTIONS = ["unchanged", "edited", "removed", "renamed", "plain", "reclustered", "bumped", "edited_twice", "bumped_odd",
-              "reclustered_same_version", "signature_same_version", "signature_swapped", "signature_prepended", "aliased_same_version"]
+              "reclustered_same_version", "signature_same_version", "signature_swapped", "signature_prepended", "aliased_same_version", "moved_into_package_shim"]
 ODD_VERSIONS = ["a::b", "1:2#3", "1.link", "x#y", "v=1+2", "@", ":", "1.0-rc.1"]
 
 
@@ -304,7 +304,7 @@ def evo_module(cluster, stage, evolution, shape="direct", oddi=0, nested=False):
 def _evo_module(cluster, stage, evolution, shape="direct", oddi=0):
     callee_v1 = '@m.memento_function(cluster=CL%s)\ndef callee(x):\n    REC.hit("callee", x)\n    return x + 1\n'
     ver1 = ', version="1"' if evolution in ("bumped", "reclustered_same_version", "signature_same_version", "signature_swapped",
-                                            "signature_prepended", "aliased_same_version") else ""
+                                            "signature_prepended", "aliased_same_version", "moved_into_package_shim") else ""
     if evolution == "bumped_odd":  # an explicit version with characters that mean something in qualified names / file names
         odd = ODD_VERSIONS[oddi % len(ODD_VERSIONS)]
         ver1 = ', version=%r' % odd
@@ -330,6 +330,10 @@ def _evo_module(cluster, stage, evolution, shape="direct", oddi=0):
         callee = (callee_v1 % ', version="1"').replace("def callee(x):", "def callee(scale=1, x=0, extra=0):")
     elif evolution == "reclustered_same_version":  # moved to another cluster, its explicit version kept
         callee = callee_v1.replace("cluster=CL%s", 'cluster="elsewhere"%s') % ', version="1"'
+    elif evolution == "moved_into_package_shim":
+        # the function moves into a package whose module name ends with the old module's name; the old module keeps the
+        # name as a re-export (run_evolve writes the package, see PACKAGED)
+        callee = "from pk.%s import callee\n" % "@@MOD@@"
     elif evolution == "aliased_same_version":
         # the function is gone; its name stays as another name for a different function that carries the same explicit version
         callee = (callee_v1 % ', version="1"').replace("def callee(", "def other(").replace('"callee"', '"other"').replace(
@@ -442,7 +446,15 @@ def run_evolve(case, out, fail):
             src = sc.path("src%d" % stage)
             os.makedirs(src)
             with open(os.path.join(src, modname + ".py"), "w") as f:
-                f.write(evo_module(cluster, stage, evolution, case.get("shape", "direct"), case.get("odd", 0), case.get("nested", False)))
+                f.write(evo_module(cluster, stage, evolution, case.get("shape", "direct"), case.get("odd", 0),
+                                   case.get("nested", False)).replace("@@MOD@@", modname))
+            if evolution == "moved_into_package_shim" and stage > 0:
+                os.makedirs(os.path.join(src, "pk"))
+                open(os.path.join(src, "pk", "__init__.py"), "w").close()
+                with open(os.path.join(src, "pk", modname + ".py"), "w") as f:
+                    f.write("import twosigma.memento as m\nfrom vf.recorder import REC\nCL = %r\n\n"
+                            "@m.memento_function(cluster=CL, version=\"1\")\ndef callee(x):\n    REC.hit(\"callee\", x)\n    return x + 1\n"
+                            % (cluster,))
             try:
                 order = ["call", "memento", "list_mementos", "list_functions"]
                 if stage > 0:
